@@ -1156,3 +1156,23 @@ fn ns_witness() {
     std::mem::forget(r);
     std::mem::forget(s);
 }
+
+// ---- C18 / C10: the client limit can be raised at run time: the slots must follow (F12) ------------------------
+#[kani::proof]
+#[kani::unwind(40)]
+fn ns_set_max_clients() {
+    ct::reset();
+    unsafe { ONE_SLOT = true };
+    let (mut s, facts) = any_server([true, true]);
+    let n: usize = kani::any();
+    s.set_max_clients(n);
+    let want = if n < NETCODE_MAX_CLIENTS { n } else { NETCODE_MAX_CLIENTS };
+    assert!(s.max_clients == want);
+    assert!(s.clients.len() >= s.max_clients, "the limit was raised but there is no slot for the additional clients: valid handshakes get denied below the limit");
+    assert!(s.clients.len() >= 1 && ns_slot_facts(&s, 0) == facts[0], "existing session disturbed by changing the limit");
+    if s.clients.len() > 1 {
+        assert!(s.clients[1].is_none());
+    }
+    kani::cover!(s.clients.len() == 2, "grown");
+    std::mem::forget(s);
+}
